@@ -122,6 +122,8 @@ func storeOp(r *rand.Rand) MsgSpec {
 		{"SlotSwap", func() []string { return []string{n(3), n(3)} }},
 		{"SlotRehome", func() []string { return []string{n(3), n(3)} }},
 		{"SlotDrop", func() []string { return []string{n(3)} }},
+		{"SlotAdopt", func() []string { return []string{n(3)} }},
+		{"SlotReset", func() []string { return []string{n(8)} }},
 	}
 	o := pick(r, ops)
 	return MsgSpec{Kind: "call", Pkg: StorePath, Func: o.f, Args: o.args()}
@@ -185,8 +187,10 @@ func moveScript(r *rand.Rand) MsgSpec {
 			fmt.Fprintf(&b, "\tprintln(store.SlotSwap(cross(cur), %d, %d))\n", r.IntN(3), r.IntN(3))
 		case 5, 6:
 			fmt.Fprintf(&b, "\tprintln(store.SlotRehome(cross(cur), %d, %d))\n", r.IntN(3), r.IntN(3))
-		case 7, 8, 9:
+		case 7, 8:
 			fmt.Fprintf(&b, "\tprintln(store.SlotDrop(cross(cur), %d))\n", r.IntN(3))
+		case 9:
+			fmt.Fprintf(&b, "\tprintln(store.SlotAdopt(cross(cur), %d))\n", r.IntN(3))
 		case 10:
 			b.WriteString("\tprintln(store.Detach(cross(cur)))\n")
 		case 11:
@@ -650,6 +654,39 @@ func SlotSeqHistories(seqLen, parts int) []*History {
 				[]TxSpec{{Signer: "alice", Gas: 150_000_000, Fee: 1_000_000, Label: label, Msgs: []MsgSpec{{Kind: "run", Body: b.String()}}}},
 			)
 		}
+	}
+	return hs
+}
+
+// SlotAdoptHistories: from three filled slots (persisted by a SlotReset block), every message of one
+// or two calls over adoption, swap, drop and re-creation.
+func SlotAdoptHistories(parts int) []*History {
+	alpha := []string{"SlotAdopt(cross(cur), 0)", "SlotAdopt(cross(cur), 1)", "SlotAdopt(cross(cur), 2)", "SlotSwap(cross(cur), 0, 1)", "SlotDrop(cross(cur), 2)", "SlotPut(cross(cur), 1, \"n\")"}
+	hs := make([]*History, parts)
+	for i := range hs {
+		hs[i] = &History{Seed: uint64(950000 + i)}
+	}
+	var seqs [][]string
+	for _, a := range alpha {
+		seqs = append(seqs, []string{a})
+		for _, b := range alpha {
+			seqs = append(seqs, []string{a, b})
+		}
+	}
+	for k, sq := range seqs {
+		var b strings.Builder
+		b.WriteString("package main\n\nimport \"gno.land/r/verif/store\"\n\nfunc main(cur realm) {\n")
+		label := "slot-adopt-seq"
+		for _, op := range sq {
+			fmt.Fprintf(&b, "\tprintln(store.%s)\n", op)
+			label += ":" + strings.Split(op, "(")[0] + strings.NewReplacer("cross(cur), ", "", "\"", "").Replace(op[strings.Index(op, "("):])
+		}
+		b.WriteString("}\n")
+		h := hs[k%parts]
+		h.Blocks = append(h.Blocks,
+			[]TxSpec{{Signer: "alice", Gas: 60_000_000, Fee: 1_000_000, Label: "slot-reset", Msgs: []MsgSpec{{Kind: "call", Pkg: StorePath, Func: "SlotReset", Args: []string{"7"}}}}},
+			[]TxSpec{{Signer: "alice", Gas: 150_000_000, Fee: 1_000_000, Label: label, Msgs: []MsgSpec{{Kind: "run", Body: b.String()}}}},
+		)
 	}
 	return hs
 }
